@@ -601,6 +601,11 @@ pub fn valid_post(view: &View, acc: &Acc, root: Key, q: &[Key]) -> PostVerdict {
         }
         false
     }
+    // the candidate loop costs O(degree * (n + m)) per node: exact decision only up to 400 nodes
+    // (beyond that the necessary conditions checked by the caller remain)
+    if view.n > 400 {
+        return PostVerdict::Undecided;
+    }
     let mut budget = 200_000usize;
     let visited = BTreeSet::from([root]);
     let n = q.len();
